@@ -234,6 +234,10 @@ func runC04(c *Ctx, r *Run) {
 		checkBigIntAliasing(c, r, "ALIAS-N", fns)
 	}
 	r.Require("ALIAS-N", 10)
+	// blame is computed from the stored per-party tables (R̄ⱼ, Sⱼ, …): two tables that are one object make every check fail for everyone
+	r.Rule("ALIAS-E", "struct literals never place one reference object into two different fields")
+	checkLiteralAliasing(c, r, "ALIAS-E")
+	r.Require("ALIAS-E", 30)
 	r.Require("RG-1", 30)
 	r.Require("RG-2", 9)
 	r.Require("OB-B3", 2)
